@@ -114,30 +114,58 @@ impl RCfg {
     }
 }
 
+thread_local! {
+    /// state of the configuration-history generator; re-seeded by the runner at the start of every case
+    pub static CFG_HIST: std::cell::Cell<u64> = const { std::cell::Cell::new(0x9E3779B97F4A7C15) };
+}
+
+pub fn allow_list(mask: u8) -> Vec<AllowableErrors> {
+    let mut allow = Vec::new();
+    if mask & ALLOW_IDS != 0 {
+        allow.push(AllowableErrors::InvalidTagIds);
+    }
+    if mask & ALLOW_HIER != 0 {
+        allow.push(AllowableErrors::HierarchyProblems);
+    }
+    if mask & ALLOW_OVERSIZE != 0 {
+        allow.push(AllowableErrors::OversizedTags);
+    }
+    allow
+}
+
 pub fn make_iter<R: Read>(src: R, cfg: &RCfg) -> TagIterator<R, DynTag> {
     let buf: Vec<DynTag> = cfg.buffered.iter().map(|id| DynTag { id: *id, val: DVal::M(Master::Start) }).collect();
     let mut it = match cfg.capacity {
         Some(c) => TagIterator::with_capacity(src, &buf, c),
         None => TagIterator::new(src, &buf),
     };
-    let mut allow = Vec::new();
-    if cfg.allow & ALLOW_IDS != 0 {
-        allow.push(AllowableErrors::InvalidTagIds);
+    // Configuration history: in a third of the constructions the setters are first called with *other* values, so
+    // that the final configuration is reached by overwriting earlier ones (setters replace, they do not accumulate).
+    let h = CFG_HIST.with(|x| {
+        let v = x.get();
+        x.set(v.wrapping_mul(6364136223846793005).wrapping_add(1442695040888963407));
+        v >> 33
+    });
+    let with_history = h % 3 == 0;
+    if with_history {
+        let prior = ((h >> 3) & 7) as u8;
+        it.allow_errors(&allow_list(prior));
+        if (h >> 6) & 1 == 1 {
+            it.allow_errors(&allow_list(((h >> 7) & 7) as u8));
+        }
+        if let MaxSz::Set(_) = cfg.max_size {
+            it.set_max_allowable_tag_size(*[None, Some(0usize), Some(7), Some(1 << 30)].get(((h >> 10) & 3) as usize).unwrap());
+        }
+        it.emit_master_end_when_eof((h >> 12) & 1 == 1);
     }
-    if cfg.allow & ALLOW_HIER != 0 {
-        allow.push(AllowableErrors::HierarchyProblems);
-    }
-    if cfg.allow & ALLOW_OVERSIZE != 0 {
-        allow.push(AllowableErrors::OversizedTags);
-    }
-    if cfg.allow != 0 {
-        it.allow_errors(&allow);
+    if cfg.allow != 0 || with_history {
+        it.allow_errors(&allow_list(cfg.allow));
     }
     if let MaxSz::Set(m) = cfg.max_size {
         it.set_max_allowable_tag_size(m);
     }
-    if !cfg.eof_end {
-        it.emit_master_end_when_eof(false);
+    if !cfg.eof_end || with_history {
+        it.emit_master_end_when_eof(cfg.eof_end);
     }
     it
 }
